@@ -242,6 +242,12 @@ func (x *ctx) exec(c caseT) (msg string, class string, env *opsenv.Env) {
 			vers += "/go.mod"
 		}
 		nCalls, nCW, nSec := len(env.Calls), len(env.ConfigWrites), len(env.Security)
+		cacheBefore := map[string][]byte{}
+		for k, v := range env.Cache {
+			if strings.Contains(k, "/tile/") {
+				cacheBefore[k] = v
+			}
+		}
 		var lines []string
 		var err error
 		var pan string
@@ -374,7 +380,7 @@ func (x *ctx) exec(c caseT) (msg string, class string, env *opsenv.Env) {
 		if st.Restart || i == 0 {
 			cleanSession = true
 		}
-		if upToDate && cleanSession && fromNet && err != nil && (c.Cache == "cold" || lg == x.A) {
+		if upToDate && cleanSession && fromNet && err != nil && (c.Cache == "cold" || lg == x.A) && cacheTilesOn(cacheBefore, lg) {
 			return fmt.Sprintf("step %d: server %s is honest and up to date for this client, but the lookup failed: %v", i, st.Server, err), "", env
 		}
 		if err == nil {
@@ -420,6 +426,21 @@ func (x *ctx) exec(c caseT) (msg string, class string, env *opsenv.Env) {
 		}
 	}
 	return "", strings.Join(classes, ","), env
+}
+
+// cacheTilesOn reports whether every tile in the on-disk cache is a true tile of log lg. A tile
+// written while an equivocating server was being checked is authenticated against that server's
+// signed head and stays in the cache; the property promises nothing about lookups that read it
+// later (an honest server with an honest cache never fails: C01).
+func cacheTilesOn(cache map[string][]byte, lg *world.SignedLog) bool {
+	for k, v := range cache {
+		i := strings.Index(k, "/tile/")
+		d, err := lg.Serve(k[i:], lg.N())
+		if err != nil || !bytes.Equal(d, v) {
+			return false
+		}
+	}
+	return true
 }
 
 func describe(acc []accepted) string {
